@@ -317,10 +317,11 @@ struct LoopTag {
 
     SizeT16 ContentOffset{0};
 
-    SizeT8 ValueOffset{0};
-    SizeT8 ValueLength{0};
+    // Offsets from 'Offset'; the head of a loop tag is never longer than 0xFFFF units (see parse()).
+    SizeT16 ValueOffset{0};
+    SizeT16 GroupOffset{0};
 
-    SizeT8 GroupOffset{0};
+    SizeT8 ValueLength{0};
     SizeT8 GroupLength{0};
 
     SizeT8 Options{0};
